@@ -76,6 +76,12 @@ func parseExtensions(e []AnyExtension) ([]config.ExtensionConfig, error) {
 			found = true
 
 			innerStructAny := innerStructValPtr.Elem().Interface()
+			if custom, isCustom := innerStructAny.(CustomExtension); isCustom {
+				//Oid() panics on an OID it can't convert, so reject it here
+				if _, err := cert.OidFromString(custom.OidStr); err != nil {
+					return nil, fmt.Errorf("custom extension number %d has an invalid oid '%v': %v", i, custom.OidStr, err)
+				}
+			}
 			innerStruct, ok := innerStructAny.(config.ExtensionConfig)
 			if !ok {
 				return nil, fmt.Errorf("field '%v' can't be casted properly", innerStructTyp.Name)
